@@ -42,6 +42,7 @@ pub fn base_cfg(prop: &'static str, label: String, cb: usize, hb: usize, events:
         poison: false,
         prefilled: vec![],
         prefilled_sweep: vec![],
+        prefilled_marks: vec![],
         deprecated_ctor: false,
         refine: false,
         refine_depth: 1,
@@ -67,7 +68,7 @@ pub fn caps(tier: &str) -> Caps {
 
 /// small configurations get the behaviour-refined key (hidden state added by a change shows up)
 fn auto_refine(cfg: &mut Cfg) {
-    if cfg.cb <= 3 && cfg.hb <= 4 && cfg.events.len() <= 24 && cfg.digest.is_none() && cfg.prefilled.is_empty() && cfg.prefilled_sweep.is_empty() {
+    if cfg.cb <= 3 && cfg.hb <= 4 && cfg.events.len() <= 24 && cfg.digest.is_none() && cfg.prefilled.is_empty() && cfg.prefilled_sweep.is_empty() && cfg.prefilled_marks.is_empty() {
         cfg.refine = true;
     }
 }
@@ -120,6 +121,17 @@ pub fn two_instances<C: embedded_cli::service::Autocomplete + embedded_cli::serv
     rep.enumerations.push(o);
 }
 
+/// E6 sandwiches A^i B^j A^k (one step deeper than the complete interleavings)
+pub fn two_instances_sandwich<C: embedded_cli::service::Autocomplete + embedded_cli::service::Help>(rep: &mut Report, prop: &'static str, label: &str, cb: usize, hb: usize, events: &[Ev], quick: bool) {
+    if REPLAY.get().is_some() && crate::report::REPLAY_CASE.get().is_none() {
+        return;
+    }
+    let shapes: Vec<(usize, usize, usize)> = if quick { vec![(3, 1, 1), (2, 1, 2), (2, 2, 1)] } else { vec![(3, 1, 1), (2, 1, 2), (2, 2, 1), (1, 2, 2), (4, 1, 1), (3, 2, 1), (3, 1, 2)] };
+    let o = crate::e6::cli_sandwiches::<C>(prop, label, cb, hb, events, &shapes);
+    eprintln!("  {}: evaluations={} viol={:?} {:.2}s", o.name, o.evaluations, o.viol_counts, o.wall_s);
+    rep.enumerations.push(o);
+}
+
 pub fn summary(o: &Outcome) -> String {
     format!(
         "{}: states={} transitions={} depth={} exhaustive={} cap={:?} viol={:?} {:.2}s",
@@ -136,6 +148,8 @@ pub fn c05(rep: &mut Report, tier: &str, seed: u64, prop: &'static str) {
         // the edited line depends on this instance's keys only
         let ev = vec![ch('a'), ch('é'), ch('𝄞'), k(Key::Bs), k(Key::Left), k(Key::Right)];
         two_instances::<RawCommand<'static>>(rep, "C05", "RawCommand", 5, 0, &ev, if tier == "quick" { 4 } else { 5 });
+        let ev = vec![ch('a'), ch('é'), k(Key::Bs), k(Key::Left), k(Key::Right), k(Key::Lf), k(Key::Up)];
+        two_instances_sandwich::<RawCommand<'static>>(rep, "C05", "RawCommand", 6, 6, &ev, tier == "quick");
     }
     let caps = caps(tier);
     let max_cb = if tier == "quick" { 6 } else { 8 };
@@ -276,6 +290,8 @@ pub fn c01(rep: &mut Report, tier: &str, seed: u64, prop: &'static str) {
         // what one Cli dispatches must not depend on another Cli served in between
         let ev = vec![ch('a'), ch('b'), ch(' '), ch('"'), k(Key::Bs), k(Key::Left), k(Key::Up), k(Key::Tab), k(Key::Lf)];
         two_instances::<Cmd4>(rep, "C01", "derived enum Cmd4", 6, 8, &ev, if tier == "quick" { 4 } else { 5 });
+        let ev = vec![ch('a'), ch('é'), ch(' '), k(Key::Bs), k(Key::Left), k(Key::Right), k(Key::Up), k(Key::Tab), k(Key::Lf)];
+        two_instances_sandwich::<Cmd4>(rep, "C01", "derived enum Cmd4", 6, 8, &ev, tier == "quick");
     }
     let caps = caps(tier);
     let mon = feat(Mon { dispatch: true, invariants: true, ..Default::default() });
